@@ -53,6 +53,15 @@ def templates():
     T["after-loop-returning-under-if"] = main("    i = 0\n    for i in range(n):\n        if c:\n            return i\n    {X}\n    return 7\n")
     T["in-loop-before-return"] = main("    i = 0\n    for i in range(n):\n        {X}\n        return i\n    return 7\n")
     T["in-nested-loop-after-returning-loop"] = main("    i = 0\n    j = 0\n    for i in range(n):\n        for j in range(i):\n            return j\n        {X}\n    return 7\n")
+    # a closure variable called in a loop and rebound by the body to another, acting closure (acts from the second iteration on)
+    T["closure-variable-rebound-in-loop"] = main("    def step():\n        return n\n    def pulse():\n        {X}\n        return n\n    acc = 0\n    i = 0\n"
+                                                 "    for i in range(n):\n        acc = acc + step()\n        step = pulse\n    return acc\n")
+    # library higher-order functions applying a subroutine / closure to the elements of a list
+    T["ilist-map-subroutine"] = main("    r = ilist.map(sub, ilist.range(n))\n    return r\n", sub)
+    T["ilist-for_each-closure"] = main("    def inner(k: int):\n        {X}\n    ilist.for_each(inner, ilist.range(n))\n")
+    T["ilist-map-capturing-closure"] = main("    def inner(k: int):\n        {X}\n        return k + n\n    r = ilist.map(inner, ilist.range(n))\n    return r\n")
+    T["ilist-foldl-subroutine"] = main("    r = ilist.foldl(sub2, ilist.range(n), 0)\n    return r\n",
+                                       "@move\ndef sub2(acc: int, m: int):\n" + PRO + "    {X}\n    return acc + m\n\n")
     # closures that capture a run-time value (the call stays dynamic) and reach the statement through a subroutine,
     # or that are purely classical and are called after an acting subroutine
     T["capturing-closure-calls-subroutine"] = main("    def inner(k: int):\n        return sub(k) + n\n    r = inner(1)\n", sub)
@@ -88,6 +97,8 @@ def abstract(m, table, seen):
     from kirin.dialects import func, scf
     from kirin import ir
     from bloqade.shuttle.dialects import gate, init, measure, path
+    from kirin.dialects import ilist as il
+    HIGHER_ORDER = (il.Map, il.ForEach, il.Foldl, il.Foldr, il.Scan)
     dev = (gate.TopHatCZ, gate.LocalR, gate.LocalRz, gate.GlobalR, gate.GlobalRz, init.Fill, measure.Measure, path.Play)
 
     def block(b):
@@ -107,6 +118,22 @@ def abstract(m, table, seen):
                     table[key] = None
                     table[key] = region(callee.callable_region)
                 out.append(f"RInvoke {cstr(seen[id(callee)])}")
+            elif isinstance(s, HIGHER_ORDER):
+                # the function operand is applied to every element: a loop of calls
+                h = s.fn.hints.get("const")
+                if isinstance(h, const.Value) and isinstance(h.data, ir.Method):
+                    callee = h.data
+                    key = f"{callee.sym_name}#{id(callee) % 100000}"
+                    if id(callee) not in seen:
+                        seen[id(callee)] = key
+                        table[key] = None
+                        table[key] = region(callee.callable_region)
+                    out.append(f"RFor [RInvoke {cstr(seen[id(callee)])}]")
+                elif isinstance(h, const.PartialLambda) and h.code.get_trait(ir.CallableStmtInterface) is not None:
+                    body = h.code.get_trait(ir.CallableStmtInterface).get_callable_region(h.code)
+                    out.append(f"RFor [RCallLam (Some {region(body)})]")
+                else:
+                    out.append("RFor [RCallLam None]")
             elif isinstance(s, func.Call):
                 h = s.callee.hints.get("const")
                 if isinstance(h, const.PartialLambda) and h.code.get_trait(ir.CallableStmtInterface) is not None:
@@ -121,15 +148,31 @@ def abstract(m, table, seen):
     return region(m.callable_region)
 
 
-def query(m):
+class _Hang(BaseException):
+    pass
+
+
+def query(m, limit=20):
+    """-> 'True' | 'False' | 'refuses' | 'NO-ANSWER' (the query did not come back within `limit` seconds)"""
+    import signal
     from bloqade.shuttle.analysis.runtime import RuntimeAnalysis
     from bloqade.shuttle.prelude import move
+
+    def on_alarm(*a):
+        raise _Hang()
+    old = signal.signal(signal.SIGALRM, on_alarm)
+    signal.alarm(limit)
     try:
         return "True" if RuntimeAnalysis(move).has_quantum_runtime(m) else "False"
+    except _Hang:
+        return "NO-ANSWER"
     except BaseException as e:
         if isinstance(e, (KeyboardInterrupt, SystemExit)):
             raise
         return "refuses"
+    finally:
+        signal.alarm(0)
+        signal.signal(signal.SIGALRM, old)
 
 
 def reflect_tables(ctx, S):
@@ -192,6 +235,11 @@ def run(ctx):
             quiet_graph = "RDev" not in whole and "RCallLam None" not in whole
             rep = {"position": tname, "statement": sname, "src": src}
             ctx.hist("answer", f"{'acts' if acting else 'never acts'} -> {ans}")
+            if ans == "NO-ANSWER":
+                ctx.fail({"kind": "query-does-not-answer", "position": tname}, rep,
+                         f"has_quantum_runtime neither answers nor refuses within 20 s (position: {tname}, statement {sname})")
+                cases.append(("([], [])", "skip", rep))
+                continue
             if acting and ans == "False":
                 ctx.fail({"kind": "false-for-acting-kernel", "position": tname}, rep,
                          f"has_quantum_runtime answers False although the kernel performs {sname} for arguments {acting[0]} (position: {tname})")
@@ -214,7 +262,7 @@ def run(ctx):
             ctx.obligation("coqc runtime file evaluates", False, log[-800:])
             continue
         for c, line in zip(ch, vals[0]):
-            if line != c[1]:
+            if c[1] != "skip" and line != c[1]:
                 mism.append({"model": line, "impl": c[1], "position": c[2]["position"], "statement": c[2]["statement"]})
     ctx.correspondence("Model.Runtime.analyze on the abstracted IR vs RuntimeAnalysis.has_quantum_runtime", len(cases), mism)
     ctx.explanation = ("Theorems: analyze = False implies no execution (any branch, trip count, dynamic callee; call depth bounded like the "
